@@ -13,7 +13,8 @@ the control flow below is written by hand after
   corrections compiled through `gate_compiler["RZ"]`, the correction added to `global_phase`),
   `globalphase_compiler`, `idle_compiler`; the gate loop of `GateCompiler.compile` (phase reset, zero-duration
   instructions dropped); `CavityQEDModel._compute_params` (aliases `sx`/`sz`, `wq`, `Delta`, the regime warnings);
-* `SCQubitsCompiler`: `_rotation_compiler` with the sampled Hann window (`np.linspace`, `generate_pulse_shape`),
+* `SCQubitsCompiler`: `_rotation_compiler` with the sampled Hann window (`np.linspace`, `generate_pulse_shape`; the amplitude
+  floor `rotMax` for small angles when the source has it),
   `_drag_pulse` (`np.gradient`, the three quadratures and which channel carries which), the plain branch
   (`DRAG = False`), `rzx_compiler` (index into `zx_coeff`, rescaling of times and coefficients, label),
   `cnot_compiler` (the generated gate sequence, each compiled through the gate map / `rzx_compiler`);
@@ -251,7 +252,7 @@ def rotation (pi : α) (H : HW α) (drag : Bool) (n : Nat) (g : GateRec α) (op 
     | some l =>
       match l[t]?, H.raw.wq[t]? with
       | some mx, some _ =>
-        let (c, tl) := hannPulse pi n mx (rotArea pi g.arg)
+        let (c, tl) := hannPulse pi n (rotMax mx (rotArea pi g.arg)) (rotArea pi g.arg)
         let ts := toString t
         if drag then
           match H.raw.alpha[t]?, tl[0]?, tl[1]? with
